@@ -112,5 +112,29 @@ pub fn printable(a: &[u8], quoted: bool) -> bool { unimplemented!() }
 //@ before stmt @<match head.borrow()>@
     proof { broadcast use axiom_nil_node; }
 //@ end
+
+// R38/R47: which source location a node is given (symbol table lookup by the node's tree hash, HashMap<String, String>) is cut to an
+// opaque helper: the location does not enter the value
+#[verifier::external_body]
+pub struct VerifSymTable { x: u8 }
+#[verifier::external_body]
+pub fn verif_symbol_loc(allocator: &mut Allocator, symbol_table: &VerifSymTable, loc: &Srcloc, program: NodePtr) -> (r: Srcloc)
+    ensures *final(allocator) == *old(allocator)
+{ unimplemented!() }
+//@ note hex_to_modern_sexp_inner (cldb -x: a program supplied as hex): the located value it rebuilds denotes exactly the deserialised CLVM node, so a hex-supplied program is the same program as its source form (C12)
+//@ extract fn hex_to_modern_sexp_inner from src/compiler/cldb.rs
+//@ canary swapped_children @<hex_to_modern_sexp_inner(allocator, symbol_table, srcloc, b)?,>@ => @<hex_to_modern_sexp_inner(allocator, symbol_table, srcloc, a)?,>@
+//@ replace R47 @<symbol_table: &HashMap<String, String>,>@ => @<symbol_table: &VerifSymTable,>@
+//@ replace-span R38 @<let hash = sha256tree(allocator, program);>@ @<.unwrap_or_else(|| loc.clone());>@ => @<let srcloc = verif_symbol_loc(allocator, symbol_table, &loc, program);>@
+//@ replace R4 @<allocator::SExp::Pair(a, b) => Ok(Rc::new(SExp::Cons(>@ => @<allocator::SExp::Pair(a, b) => { proof { let t = node_tree(*allocator, program)->Some_0; assert(*t->Pair_0 == node_tree(*allocator, a)->Some_0); assert(*t->Pair_1 == node_tree(*allocator, b)->Some_0); assert(decreases_to!(t => *t->Pair_0)); assert(decreases_to!(t => *t->Pair_1)); } Ok(Rc::new(SExp::Cons(>@
+//@ replace R4 @<))),>@ => @<))) },>@
+//@ replace-span R4 @<_ => convert_from_clvm_rs(allocator, srcloc, program).map_err(|_| {>@ @<}),>@ => @<_ => match convert_from_clvm_rs(allocator, srcloc, program) { Ok(verif_v) => Ok(verif_v), Err(verif_e) => Err(EvalErr::InternalError(NodePtr::NIL, verif_opaque_string())) },>@
+//@ sig r
+    requires node_tree(*old(allocator), program) is Some
+    ensures
+        *final(allocator) == *old(allocator),
+        r matches Ok(s) ==> tree_of(int_mode(), *s) == node_tree(*old(allocator), program)->Some_0,
+    decreases node_tree(*old(allocator), program)->Some_0
+//@ end
 }
 fn main() {}
